@@ -296,8 +296,10 @@ def fitted_attr(est, name):
 
 
 def gen_plan(seed, tier):
+  # unknown=True: refits of supervised learners alternate between the full
+  # and the partially unknown label vector on the same points
   return gen_history(seed, tier, fresh_p=0.004 if tier == "thorough" else 0.003,
-                     weights=dict(fault=3))
+                     weights=dict(fault=3), unknown=True)
 
 
 def run_plan(plan):
